@@ -24,7 +24,7 @@ ALL_KINDS = (["bool"] + INT_KINDS + FLOAT_KINDS + TEXT_KINDS + DT_KINDS + DTZ_KI
 NULL_PATTERNS = ["none", "first", "last", "firstlast", "alt", "p01", "p50", "p99", "all"]
 BOUNDARY_ROWS = [0, 1, 2, 7, 8, 9, 63, 64, 65, 127, 128, 129]
 BIG_ROWS = [8191, 8192, 8193]
-TZS = ["UTC", "Europe/Berlin", "America/New_York", "+05:30"]
+TZS = ["UTC", "Europe/Berlin", "America/New_York", "+05:30", "-00:30", "-03:30", "+00:45", "-00:01"]
 
 STR_POOL = ["", "a", "ab", "héllo", "日本語", "𝄞 clef", "x" * 300, "nan", "None", "0", " lead", "trail ",
             "tab\there", "new\nline", "quote\"s", "ÿ", "Ā", "z" * 17]
